@@ -223,6 +223,8 @@ def interleave(prog, run):
             contiguous = None
             if isinstance(lo_e, ast.Name) and isinstance(hi_e, ast.Name) and lo_e.id in env and isinstance(env[lo_e.id], ast.Name):
                 contiguous = env[lo_e.id].id == hi_e.id
+            elif jj is not None and not any(jj == sn or f",{jj}]" in sn or f"[{jj}]" in sn for k in lo.t for sn, e in k):
+                contiguous = False         # the start does not depend on the setup at all: every setup is written to the same rows
             elif jj is not None and ref_end is not None:
                 ps = P.s(f"psum[n_mov,{jj}]")
                 rest = lo - ps
